@@ -721,3 +721,423 @@ Proof.
   replace (u ++ r' ++ rev w ++ b) with ((u ++ r' ++ rev w) ++ b) in Hd by (rewrite <- !app_assoc; reflexivity).
   apply app_inv_tail in Hd. symmetry. exact Hd.
 Qed.
+
+(* ------------------------------------------------------------------ *)
+(* length, UTF-8 length                                                *)
+
+Lemma length_counts_cps s : std_length (VStr s) = Ok (VNum (f_of_N (N.of_nat (length s)))).
+Proof. reflexivity. Qed.
+
+Lemma utf8_len_app a b : utf8_len (a ++ b) = (utf8_len a + utf8_len b)%N.
+Proof. induction a as [|c a IH]; simpl; [reflexivity|]. rewrite IH. lia. Qed.
+
+Lemma utf8_len_ge_length s : (N.of_nat (length s) <= utf8_len s)%N.
+Proof.
+  induction s as [|c r IH]; simpl; [lia|]. pose proof (cp_utf8_len_pos c). lia.
+Qed.
+
+Lemma utf8_len_eq_length_iff_ascii s :
+  utf8_len s = N.of_nat (length s) <-> Forall (fun c => (c < 128)%N) s.
+Proof.
+  induction s as [|c r IH]; simpl.
+  - split; auto.
+  - pose proof (utf8_len_ge_length r) as Hr. pose proof (cp_utf8_len_pos c) as Hc. split.
+    + intros H. assert (cp_utf8_len c = 1%N) as H1 by lia.
+      constructor; [|apply IH; lia].
+      unfold cp_utf8_len in H1. destruct (c <? 128)%N eqn:E; [apply N.ltb_lt; exact E|].
+      destruct (c <? 2048)%N, (c <? 65536)%N; discriminate.
+    + intros H. inversion H as [|? ? Hc1 Hr1]; subst. apply IH in Hr1.
+      unfold cp_utf8_len. apply N.ltb_lt in Hc1. rewrite Hc1. lia.
+Qed.
+
+(* ------------------------------------------------------------------ *)
+(* reverse, stringChars, map, flatMap                                  *)
+
+Lemma reverse_involutive s l : std_reverse (VStr s) = Ok (VArr l) ->
+  std_reverse (VArr l) = Ok (VArr (string_chars s)).
+Proof.
+  simpl. intros H. inversion H; subst. unfold string_chars.
+  rewrite <- map_rev, rev_involutive. reflexivity.
+Qed.
+
+Lemma join_str_items_strs sep l first acc :
+  join_str_items sep (map VStr l) first acc =
+    Ok (match l with
+        | [] => acc
+        | _ => if first then acc ++ join sep l else acc ++ sep ++ join sep l
+        end).
+Proof.
+  revert first acc. induction l as [|a l IH]; intros first acc; [reflexivity|].
+  cbn [map join_str_items]. rewrite IH. destruct l as [|b l].
+  - simpl. destruct first; reflexivity.
+  - rewrite (join_cons sep a (b :: l)) by discriminate.
+    destruct first; rewrite <- ?app_assoc; reflexivity.
+Qed.
+
+Lemma std_join_strs sep l : std_join (VStr sep) (strs l) = Ok (VStr (join sep l)).
+Proof.
+  unfold std_join, strs. simpl want_arr. cbn [obind]. rewrite join_str_items_strs.
+  destruct l; reflexivity.
+Qed.
+
+(* std.join("", std.stringChars(s)) == s *)
+Lemma stringChars_join s : std_join (VStr []) (VArr (string_chars s)) = Ok (VStr s).
+Proof.
+  unfold string_chars, char_val.
+  replace (map (fun c => VStr [c]) s) with (map VStr (map (fun c => [c]) s)) by (rewrite map_map; reflexivity).
+  change (VArr (map VStr (map (fun c => [c]) s))) with (strs (map (fun c => [c]) s)).
+  rewrite std_join_strs. f_equal. f_equal.
+  induction s as [|c r IH]; [reflexivity|]. cbn [map].
+  destruct r as [|d r]; [reflexivity|].
+  rewrite join_cons by discriminate. rewrite IH. reflexivity.
+Qed.
+
+Lemma map_res_length {A B} (f : A -> res B) l r : map_res f l = Ok r -> length r = length l.
+Proof.
+  revert r. induction l as [|x l IH]; intros r H; simpl in H.
+  - inversion H. reflexivity.
+  - destruct (f x); simpl in H; try discriminate.
+    destruct (map_res f l); simpl in H; try discriminate. inversion H; subst. simpl. f_equal. auto.
+Qed.
+
+Lemma map_res_nth {A B} (f : A -> res B) l r : map_res f l = Ok r ->
+  forall i x, nth_error l i = Some x -> exists y, nth_error r i = Some y /\ f x = Ok y.
+Proof.
+  revert r. induction l as [|a l IH]; intros r H i x Hx; simpl in H.
+  - destruct i; discriminate.
+  - destruct (f a) as [y0| | |] eqn:Fa; simpl in H; try discriminate.
+    destruct (map_res f l) as [ys| | |] eqn:M; simpl in H; try discriminate. inversion H; subst.
+    destruct i as [|i]; simpl in *.
+    + inversion Hx; subst. eauto.
+    + eapply IH; eauto.
+Qed.
+
+(* std.map over a string makes one call per code point *)
+Lemma map_str_length f s l : map_str f s = Ok l ->
+  length l = length s /\
+  forall i c, nth_error s i = Some c -> exists v, nth_error l i = Some v /\ f [c] = Ok v.
+Proof.
+  unfold map_str. intros H. split; [eapply map_res_length; eauto|].
+  intros i c Hc. eapply (map_res_nth (fun c => f [c])); eauto.
+Qed.
+
+Lemma flat_map_id_acc s acc : flat_map_str (fun c => Ok (VStr c)) s acc = Ok (acc ++ s).
+Proof.
+  revert acc. induction s as [|c r IH]; intros acc; simpl.
+  - rewrite app_nil_r. reflexivity.
+  - rewrite IH, <- app_assoc. reflexivity.
+Qed.
+
+Lemma flatMap_id s : std_flat_map (VFun 0) (VStr s) = Ok (VStr s).
+Proof.
+  unfold std_flat_map. simpl want_fun. cbn [obind].
+  change (apply_fun 0) with (fun c : str => @Ok value err (VStr c)).
+  rewrite flat_map_id_acc. reflexivity.
+Qed.
+
+(* ------------------------------------------------------------------ *)
+(* skip / take / step_by                                               *)
+
+Lemma step_by_aux_1 {A} (l : list A) : step_by_aux 1 0 l = l.
+Proof. induction l as [|x l IH]; simpl; [reflexivity|]. f_equal. exact IH. Qed.
+
+Lemma step_by_1 {A} (l : list A) : step_by 1 l = l.
+Proof. apply step_by_aux_1. Qed.
+
+Lemma skipN_spec {A} n (l : list A) : skipN n l = skipn (N.to_nat n) l.
+Proof.
+  unfold skipN, lenN. destruct (N.of_nat (length l) <=? n)%N eqn:E; [|reflexivity].
+  apply N.leb_le in E. rewrite skipn_all2 by lia. reflexivity.
+Qed.
+
+Lemma takeN_spec {A} n (l : list A) : takeN n l = firstn (N.to_nat n) l.
+Proof.
+  unfold takeN, lenN. destruct (N.of_nat (length l) <=? n)%N eqn:E; [|reflexivity].
+  apply N.leb_le in E. rewrite firstn_all2 by lia. reflexivity.
+Qed.
+
+Lemma nthN_spec {A} (l : list A) i : nthN l i = nth_error l (N.to_nat i).
+Proof.
+  unfold nthN, lenN. destruct (N.of_nat (length l) <=? i)%N eqn:E; [|reflexivity].
+  apply N.leb_le in E. symmetry. apply nth_error_None. lia.
+Qed.
+
+(* substr(s, from, len) and the slice s[from : from+len] agree (code-point level) *)
+Lemma substr_slice_cps s from len :
+  slice_list s from (from + len) 1 = Ok (substr_cps s from len).
+Proof.
+  unfold slice_list, substr_cps.
+  replace (from + len <? from)%N with false by (symmetry; apply N.ltb_ge; lia).
+  replace (1 =? 0)%N with false by reflexivity.
+  rewrite step_by_1. replace (from + len - from)%N with len by lia. reflexivity.
+Qed.
+
+(* ------------------------------------------------------------------ *)
+(* index                                                               *)
+
+(* for every double the code accepts as the index i, the answer is the i-th code point
+   (one-character string) or "out of range" exactly when i >= length *)
+Lemma index_is_nth s x i : try_to_usize_exact x = Some i ->
+  index_value (VStr s) (VNum x) =
+    match nth_error s (N.to_nat i) with
+    | Some c => Ok (VStr [c])
+    | None => Err ENumericIndexOutOfRange
+    end.
+Proof.
+  intros H. unfold index_value. rewrite H, nthN_spec. destruct (nth_error s (N.to_nat i)); reflexivity.
+Qed.
+
+Lemma index_rejected s x : try_to_usize_exact x = None ->
+  index_value (VStr s) (VNum x) = Err ENumericIndexIsNotValid.
+Proof. intros H. unfold index_value. rewrite H. reflexivity. Qed.
+
+(* the accepted index denotes the double: IEEE equality with the conversion back *)
+Lemma try_to_usize_exact_sound x i : try_to_usize_exact x = Some i ->
+  f_eqb (f_of_N i) x = true /\ (i <= usize_max)%N.
+Proof.
+  unfold try_to_usize_exact. destruct (f_eqb (f_of_N (sat_cast usize_max x)) x) eqn:E; [|discriminate].
+  intros H. inversion H; subst. split; auto.
+  unfold sat_cast. destruct x as [| [|] | |[|] m e]; try (unfold usize_max; lia).
+  destruct (trunc_Z (S754_finite false m e)); [apply N.le_min_r|unfold usize_max; lia].
+Qed.
+
+(* ------------------------------------------------------------------ *)
+(* slice: the range computation never lets the subtraction underflow    *)
+
+Lemma trunc_Z_eq x : trunc_Z x = f_trunc_Z x.
+Proof.
+  destruct x as [s|s| |s m e]; try reflexivity. unfold trunc_Z, f_trunc_Z.
+  destruct (0 <=? e)%Z eqn:E.
+  - apply Z.leb_le in E. rewrite Z.shiftl_mul_pow2 by exact E. reflexivity.
+  - apply Z.leb_gt in E. rewrite Z.shiftr_div_pow2 by lia. reflexivity.
+Qed.
+
+Lemma f_one_eq : f_one = S754_finite false 4503599627370496 (-52).
+Proof. reflexivity. Qed.
+
+Lemma sat_cast_le maxv x : (sat_cast maxv x <= maxv)%N.
+Proof.
+  unfold sat_cast. destruct x as [| [|] | |[|] m e]; try lia.
+  destruct (trunc_Z (S754_finite false m e)); [apply N.le_min_r|lia].
+Qed.
+
+Lemma step_ok x : not_integer x = false -> f_ltb x f_one = false ->
+  (1 <= sat_cast usize_max x)%N.
+Proof.
+  intros H1 H2. rewrite f_one_eq in H2. destruct x as [s|s| |s m e].
+  - destruct s; discriminate H2.
+  - discriminate H1.
+  - discriminate H1.
+  - destruct s; [discriminate H2|].
+    unfold not_integer in H1. cbn [f_is_finite negb orb] in H1.
+    unfold sat_cast, f_trunc in *. rewrite trunc_Z_eq in *. unfold f_trunc_Z in *.
+    destruct (0 <=? e)%Z eqn:E.
+    + apply Z.leb_le in E.
+      assert (1 <= Z.pos m * 2 ^ e)%Z by (pose proof (Z.pow_pos_nonneg 2 e); nia).
+      unfold usize_max. lia.
+    + destruct (Z.pos m / 2 ^ (- e) =? 0)%Z eqn:Z0.
+      * discriminate H1.
+      * apply Z.eqb_neq in Z0.
+        assert (0 <= Z.pos m / 2 ^ (- e))%Z by (apply Z.div_pos; [lia|apply Z.pow_pos_nonneg; lia]).
+        unfold usize_max. lia.
+Qed.
+
+Ltac split_ifs_in H :=
+  repeat (match type of H with
+          | context [if ?c then _ else _] => destruct c eqn:?
+          end; cbn [obind] in H; try discriminate H).
+
+Lemma slice_range_ok len a b c st en sp :
+  get_slice_range len a b c = Ok (st, en, sp) -> (len <= usize_max)%N ->
+  (st <= en)%N /\ (1 <= sp)%N.
+Proof.
+  unfold get_slice_range. intros H Hlen.
+  pose proof (sat_cast_le usize_max) as Hle.
+  destruct a as [x|]; destruct b as [y|]; destruct c as [z|]; split_ifs_in H;
+    inversion H; subst; clear H;
+    repeat match goal with
+           | E : (not_integer ?z || f_ltb ?z f_one)%bool = false |- _ =>
+               apply orb_false_iff in E as [? ?]
+           end;
+    try (pose proof (step_ok z ltac:(assumption) ltac:(assumption)));
+    try (pose proof (Hle x)); try (pose proof (Hle (f_neg x))); lia.
+Qed.
+
+Lemma slice_range_no_panic len a b c : is_panic (get_slice_range len a b c) = false.
+Proof.
+  unfold get_slice_range.
+  destruct a as [x|]; destruct b as [y|]; destruct c as [z|];
+    repeat (match goal with
+            | |- context [if ?c then _ else _] => destruct c
+            end; cbn [obind is_panic]); reflexivity.
+Qed.
+
+Lemma slice_no_panic s a b c isf : (lenN s <= usize_max)%N ->
+  is_panic (do_slice (VStr s) a b c isf) = false.
+Proof.
+  intros Hlen. unfold do_slice.
+  pose proof (slice_range_no_panic (lenN s) a b c) as Hnp.
+  destruct (get_slice_range (lenN s) a b c) as [[[st en] sp]| | |] eqn:G; try reflexivity; [|discriminate Hnp].
+  destruct (slice_range_ok _ _ _ _ _ _ _ G Hlen) as [H1 H2].
+  cbn [obind]. unfold slice_list.
+  replace (en <? st)%N with false by (symmetry; apply N.ltb_ge; exact H1).
+  replace (sp =? 0)%N with false by (symmetry; apply N.eqb_neq; lia).
+  reflexivity.
+Qed.
+
+(* what a successful string slice is: skip start, take end - start, every step-th *)
+Lemma slice_is_skip_take_step s a b c isf v : (lenN s <= usize_max)%N ->
+  do_slice (VStr s) a b c isf = Ok v ->
+  exists st en sp, get_slice_range (lenN s) a b c = Ok (st, en, sp) /\ (st <= en)%N /\ (1 <= sp)%N /\
+    v = VStr (step_by sp (firstn (N.to_nat (en - st)) (skipn (N.to_nat st) s))).
+Proof.
+  intros Hlen H. unfold do_slice in H.
+  destruct (get_slice_range (lenN s) a b c) as [[[st en] sp]| | |] eqn:G; try discriminate H.
+  destruct (slice_range_ok _ _ _ _ _ _ _ G Hlen) as [H1 H2].
+  exists st, en, sp. split; [reflexivity|]. split; [exact H1|]. split; [exact H2|].
+  cbn [obind] in H. unfold slice_list in H.
+  replace (en <? st)%N with false in H by (symmetry; apply N.ltb_ge; exact H1).
+  replace (sp =? 0)%N with false in H by (symmetry; apply N.eqb_neq; lia).
+  cbn [obind] in H. inversion H. rewrite takeN_spec, skipN_spec. reflexivity.
+Qed.
+
+(* std.substr(s, a, l) == s[a : e] whenever the double e denotes a + l *)
+Lemma substr_slice_agree s a l e v :
+  not_integer e = false -> f_neg_p e = false ->
+  sat_cast usize_max e = (sat_cast usize_max a + sat_cast usize_max l)%N ->
+  std_substr (VStr s) (VNum a) (VNum l) = Ok v ->
+  slice_expr (VStr s) (VNum a) (VNum e) VNull = Ok v.
+Proof.
+  intros He1 He2 Hsum H. unfold std_substr in H. cbn [want_str want_num obind] in H.
+  destruct (not_integer a || f_neg_p a)%bool eqn:Ea; [discriminate H|].
+  destruct (not_integer l || f_neg_p l)%bool eqn:El; [discriminate H|].
+  apply orb_false_iff in Ea as [Ea1 Ea2]. inversion H; subst. clear H.
+  unfold slice_expr. cbn [slice_part obind]. unfold do_slice, get_slice_range.
+  rewrite Ea1, Ea2, He1, He2. cbn [obind]. rewrite Hsum.
+  replace (N.max (sat_cast usize_max a + sat_cast usize_max l) (sat_cast usize_max a))
+    with (sat_cast usize_max a + sat_cast usize_max l)%N by lia.
+  rewrite substr_slice_cps. reflexivity.
+Qed.
+
+(* ------------------------------------------------------------------ *)
+(* char / codepoint: exhaustive check over all 0x110000 code points     *)
+
+Fixpoint all_range (p : positive) (base : N) (f : N -> bool) : bool :=   (* base .. base + p - 1 *)
+  match p with
+  | xH => f base
+  | xO q => all_range q base f && all_range q (base + Npos q) f
+  | xI q => f base && all_range q (base + 1) f && all_range q (base + 1 + Npos q) f
+  end.
+
+Lemma all_range_spec p : forall base f, all_range p base f = true ->
+  forall j, (base <= j < base + Npos p)%N -> f j = true.
+Proof.
+  induction p as [q IH|q IH|]; intros base f H j Hj; simpl in H.
+  - apply andb_true_iff in H as [H H3]. apply andb_true_iff in H as [H1 H2].
+    destruct (N.eq_dec j base) as [->|Hne]; [exact H1|].
+    destruct (N.lt_ge_cases j (base + 1 + Npos q)) as [Hlt|Hge].
+    + apply (IH _ _ H2). lia.
+    + apply (IH _ _ H3). lia.
+  - apply andb_true_iff in H as [H1 H2].
+    destruct (N.lt_ge_cases j (base + Npos q)) as [Hlt|Hge].
+    + apply (IH _ _ H1). lia.
+    + apply (IH _ _ H2). lia.
+  - assert (j = base) as -> by lia. exact H.
+Qed.
+
+Definition char_cp_ok (c : N) : bool :=
+  match std_char (VNum (f_of_N c)) with
+  | Ok (VStr [d]) => is_scalar c && (d =? c)%N
+  | Err EOther => negb (is_scalar c)
+  | _ => false
+  end.
+
+Lemma char_cp_all : all_range 0x110000 0 char_cp_ok = true.
+Proof. vm_compute. reflexivity. Qed.
+
+Lemma is_scalar_lt c : is_scalar c = true -> (c < 0x110000)%N.
+Proof.
+  unfold is_scalar. intros H. apply orb_true_iff in H as [H|H].
+  - apply N.ltb_lt in H. lia.
+  - apply andb_true_iff in H as [_ H]. apply N.ltb_lt in H. exact H.
+Qed.
+
+Lemma char_codepoint_inverse c : is_scalar c = true ->
+  std_char (VNum (f_of_N c)) = Ok (VStr [c]) /\
+  std_codepoint (VStr [c]) = Ok (VNum (f_of_N c)).
+Proof.
+  intros Hs. split; [|reflexivity].
+  pose proof (all_range_spec _ _ _ char_cp_all c) as H.
+  specialize (H ltac:(pose proof (is_scalar_lt c Hs); lia)).
+  unfold char_cp_ok in H.
+  destruct (std_char (VNum (f_of_N c))) as [v|e| |]; try discriminate H.
+  - destruct v as [| | |t| | |]; try discriminate H.
+    destruct t as [|d [|]]; try discriminate H.
+    apply andb_true_iff in H as [_ H]. apply N.eqb_eq in H. subst. reflexivity.
+  - destruct e; try discriminate H. rewrite Hs in H. discriminate H.
+Qed.
+
+(* below the first surrogate and above the last, up to 0x10FFFF, and nothing else *)
+Lemma char_rejects_non_scalar c : (c < 0x110000)%N -> is_scalar c = false ->
+  std_char (VNum (f_of_N c)) = Err EOther.
+Proof.
+  intros Hlt Hs.
+  pose proof (all_range_spec _ _ _ char_cp_all c ltac:(lia)) as H.
+  unfold char_cp_ok in H.
+  destruct (std_char (VNum (f_of_N c))) as [v|e| |]; try discriminate H.
+  - destruct v as [| | |t| | |]; try discriminate H.
+    destruct t as [|d [|]]; try discriminate H. rewrite Hs in H. discriminate H.
+  - destruct e; try discriminate H. reflexivity.
+Qed.
+
+(* whatever std.char returns, std.codepoint maps it back to an in-range scalar *)
+Lemma codepoint_char_inverse x v : std_char (VNum x) = Ok v ->
+  exists c, v = VStr [c] /\ is_scalar c = true /\ std_codepoint v = Ok (VNum (f_of_N c)).
+Proof.
+  unfold std_char. cbn [want_num obind]. intros H.
+  destruct (try_to_u32 (f_trunc x)) as [c|]; [|discriminate H].
+  destruct (is_scalar c) eqn:E; [|discriminate H]. inversion H; subst.
+  exists c. split; [reflexivity|]. split; [exact E|reflexivity].
+Qed.
+
+(* ------------------------------------------------------------------ *)
+(* value-level corollaries                                             *)
+
+Lemma std_join_split s sep v : std_split (VStr s) (VStr sep) = Ok v ->
+  std_join (VStr sep) v = Ok (VStr s).
+Proof.
+  unfold std_split. cbn [want_str obind]. destruct sep as [|c sep']; [discriminate|].
+  intros H. destruct (StrFns.split s (c :: sep')) as [l| | |] eqn:E; cbn [obind] in H; try discriminate H.
+  inversion H; subst. rewrite std_join_strs.
+  rewrite (join_split s (c :: sep') l) by (auto; discriminate). reflexivity.
+Qed.
+
+Lemma rsplit_exists_clean s sep : sep <> [] ->
+  exists rs, RSplit sep s rs /\ join sep (rev rs) = s /\
+             Forall (fun piece => forall i, occurs_at sep piece i = false) rs.
+Proof.
+  intros Hp. destruct (RSplit_exists sep Hp s) as [rs H]. exists rs.
+  split; [exact H|]. split; [apply RSplit_join; exact H|].
+  pose proof (RSplit_clean _ _ _ Hp H) as Hc.
+  eapply Forall_impl; [|exact Hc]. intros piece Hn. apply str_find_none. exact Hn.
+Qed.
+
+Lemma checked_limit_pos m n : checked_limit m = Some n -> (1 <= n)%N.
+Proof.
+  unfold checked_limit. destruct (try_to_usize m) as [v|]; [|discriminate].
+  destruct (v =? usize_max)%N; [discriminate|]. intros H. inversion H. lia.
+Qed.
+
+Lemma decoded_limit_positive m n :
+  (decode_maxsplits m = Ok (Some n) \/ decode_maxsplits_r m = Ok (Some n)) -> (1 <= n)%N.
+Proof.
+  unfold decode_maxsplits, decode_maxsplits_r.
+  destruct (not_integer m); [intros [H|H]; discriminate H|].
+  destruct (f_neg_p m).
+  - destruct (f_ne m (f_of_Z (-1))); intros [H|H]; discriminate H.
+  - intros [H|H]; inversion H as [H1].
+    + apply (checked_limit_pos m). exact H1.
+    + destruct (checked_limit m) as [k|] eqn:E.
+      * apply (checked_limit_pos m). exact E.
+      * unfold usize_max. lia.
+Qed.
